@@ -253,6 +253,8 @@ def dec(a):
 def run_tool(binary, args, lines, timeout=600):
     """Feeds `lines` (one case per line) to a protocol binary, returns its stdout lines."""
     inp = "".join(l + "\n" for l in lines)
+    # the thorough tier feeds 20-100 times as many cases per call and runs next to other sweeps: the time allowed grows with it
+    timeout = timeout * (4 if TOOL_TIMEOUT > 1000 else 1)
     try:
         p = subprocess.run([binary] + list(args), input=inp, stdout=subprocess.PIPE, stderr=subprocess.PIPE, text=True,
                            timeout=min(timeout, TOOL_TIMEOUT))
